@@ -284,8 +284,8 @@ impl Prop for C13 {
         match tier {
             Tier::Quick => vec![
                 Space { name: "chars", size: tg::count_upto(k, 5), exhaustive: true, chunk: 200_000, case_timeout_s: 10.0, what: "all strings of length 1-5 over a 24-symbol character alphabet" },
-                Space { name: "lexemes", size: 60_000, exhaustive: false, chunk: 4000, case_timeout_s: 10.0, what: "random sequences of token lexemes (incl. fusing and unterminated forms), grammar fragments and Unicode pieces" },
-                Space { name: "corpus", size: 20_000, exhaustive: false, chunk: 1500, case_timeout_s: 20.0, what: "shipped .mmm sources truncated / range-deleted / duplicated / with insertions" },
+                Space { name: "lexemes", size: 300_000, exhaustive: false, chunk: 4000, case_timeout_s: 10.0, what: "random sequences of token lexemes (incl. fusing and unterminated forms), grammar fragments and Unicode pieces" },
+                Space { name: "corpus", size: 80_000, exhaustive: false, chunk: 1500, case_timeout_s: 20.0, what: "shipped .mmm sources truncated / range-deleted / duplicated / with insertions" },
             ],
             Tier::Thorough => vec![
                 Space { name: "chars", size: tg::count_upto(k, 6), exhaustive: true, chunk: 1_000_000, case_timeout_s: 10.0, what: "all strings of length 1-6 over a 24-symbol character alphabet" },
